@@ -66,6 +66,8 @@ func c07Scenario(p c07Params) *explore.Scenario {
 		Name:   p.name(),
 		Params: p.params(),
 		Opt:    vx.Options{ChanCap: p.ChanCap, MaxSteps: 60000, Horizon: 2 * time.Hour},
+		// "every disconnect finishes": an execution that is still going after 60000 steps does not
+		StepCapIsLivelock: true,
 	}
 	sc.Main = func(env *vx.Env) {
 		c := NewClient("me", func(cfg *client.Config) { cfg.Flood = !p.FloodCtl })
@@ -231,6 +233,8 @@ func c07Scenario(p c07Params) *explore.Scenario {
 		switch o.Kind {
 		case "crash":
 			return []explore.Finding{{Oracle: "crash", Msg: o.Crash.Task + ": " + o.Crash.Value + " @ " + o.Crash.Top}}
+		case "step-cap":
+			return []explore.Finding{{Oracle: "livelock", Msg: fmt.Sprintf("the scenario is still taking steps after %d of them (a finishing execution takes a few thousand): something polls instead of finishing (cause %s); waiting: %s", o.Steps, p.Cause, o.BlockedSig())}}
 		case "deadlock":
 			return []explore.Finding{{Oracle: "deadlock", Msg: "disconnect never completes (cause " + p.Cause + "); blocked: " + o.BlockedSig()}}
 		}
@@ -328,7 +332,7 @@ func c07ReconnectScenario(p c07RecParams) *explore.Scenario {
 		Family: "reconnect",
 		Name:   p.name(),
 		Params: map[string]interface{}{"cause": p.Cause, "from": p.From, "cycles": p.Cycles, "tracking": p.Tracking, "welcome": p.Welcome, "inbound_backlog": p.Backlog, "chancap": p.ChanCap},
-		Opt:    vx.Options{ChanCap: p.ChanCap, MaxSteps: 60000},
+		Opt:    vx.Options{ChanCap: p.ChanCap, MaxSteps: 60000, Horizon: 24 * time.Hour},
 	}
 	sc.Main = func(env *vx.Env) {
 		c := NewClient("me", nil)
@@ -380,6 +384,8 @@ func c07ReconnectScenario(p c07RecParams) *explore.Scenario {
 		doConnect("root")
 		for k := 1; k <= p.Cycles; k++ {
 			connects.WaitFor(k)
+			vx.Quiesce()
+			vx.Sleep(10 * time.Minute) // far longer than any timeout the configuration knows (Config.Timeout is 60 s)
 			vx.Quiesce()
 			// the k-th connection has been up and idle for a while: it must still be there
 			me, cfgMe := c.Me(), c.Config().Me
